@@ -1142,12 +1142,39 @@ def skel_with_arrays():
                     return key[1]
                 if isinstance(key, tuple) and key[0] == "elem" and isnum(key[2]) and isnum(self.load(key[1])):
                     return self.load(key[1]) + key[2]
+            if n is not None and n["k"] == "CallExpr" and "callee" not in n:
+                # a call through a pointer to a function: the function if the pointer names exactly one, else not followed
+                direct = self.resolve_indirect(n)
+                if direct is not None:
+                    return self.ev(direct)
+                if getattr(self, "on_object", None) is not None:
+                    self.on_object(n)
             try:
                 return super().ev(e)
             except TypeError:
                 # arithmetic on a value that is not a number (a pointer to an object, an iterator into a container)
                 raise Undecidable("%s: arithmetic on a pointer / iterator not understood at line %s: %s"
                                   % (self.fn.full, (e or {}).get("l"), dtable.describe(e)[:60]))
+
+        def resolve_indirect(self, n, depth=0):
+            f0 = strip_casts(kids(n)[0]) if kids(n) else None
+            while f0 is not None and (f0["k"] == "ParenExpr" or (f0["k"] == "UnaryOperator" and f0.get("op") in ("&", "*"))) and kids(f0):
+                f0 = strip_casts(kids(f0)[0])
+            r = ref_of(f0)
+            if r is None or self.tu is None or depth > 3:
+                return None
+            f = self.tu.by_did.get(r)
+            if f is None:
+                # a pointer variable that is initialised once and never assigned
+                v = next((z for z in walk(self.fn.body) if z["k"] == "VarDecl" and z.get("did") == r), None)
+                if v is None or not kids(v) or kids(v)[0] is None or writes_to(self.fn.body, r):
+                    return None
+                return self.resolve_indirect(dict(n, ch=[kids(v)[0]] + kids(n)[1:]), depth + 1)
+            if f.body is None:
+                return None
+            out = dict(n, callee={"did": f.did, "name": f.name, "qname": f.qname, "targs": list(f.targs)}, ch=kids(n)[1:])
+            out.pop("indirect", None)
+            return out
 
         def stmt(self, s):
             if s is None or s["k"] != "DeclStmt":
@@ -1918,7 +1945,8 @@ def prepare_one(ck, fn):
         # of project types may compute a split point in a way the evaluation does not follow
         sk.on_uninlined = lambda e, foreign=foreign: foreign.append(e["callee"]["name"]) if unfollowed_effect(e) and \
             e["callee"]["name"] not in ("upper_bound", "lower_bound") else None
-        sk.on_object = lambda v, foreign=foreign: foreign.append("the constructor of " + (v.get("name") or "a local"))
+        sk.on_object = lambda v, foreign=foreign: foreign.append(("the constructor of %s" % v.get("name")) if v.get("k") == "VarDecl" and v.get("name")
+                                                                 else "an operation that is not followed at line %s" % v.get("l"))
         try:
             sk.run(frag)
         except skel.Return:
@@ -2032,6 +2060,8 @@ def dispatch_one(ck, fn):
                     return NotImplemented
                 sk = skel_with_arrays()(fn, {seqs_b: 0, seqs_e: kv, mw: a}, None, event)
                 sk.on_uninlined = lambda e, other=other: other.append(e) if unfollowed_effect(e) and not any(x is e for x in other) else None
+                sk.on_object = lambda v, other=other: other.append({"k": "CallExpr", "l": v.get("l"), "f": v.get("f"), "id": v.get("id"), "callee": {
+                    "name": "a call through a pointer" if v.get("k") == "CallExpr" else "the constructor of %s" % (v.get("name") or "an object")}})
                 try:
                     sk.run(kids(fn.body))
                 except skel.Return:
@@ -2711,6 +2741,8 @@ class LTFlow:
         protocol reads), runs statements this analysis does not see: they may emit, advance or feed"""
         tu = getattr(self.fn, "tu", None)
         for z in walk(e):
+            if z["k"] == "CallExpr" and "callee" not in z:
+                raise ir.AnalysisBroken("%s: the call through a pointer at line %s is not followed" % (self.fn.full, z.get("l")))
             if "callee" not in z:
                 continue
             if z["k"] == "CXXOperatorCallExpr" and z.get("op") == "()" and kids(z) and \
